@@ -243,9 +243,17 @@ func (r *realm) close() {
 	// be closed. Until the last session handler had exited, the broker and
 	// dealer could still route events, results and errors caused by the other
 	// sessions to a session whose handler had already exited.
+	// Closing a peer can take a while (a websocket or rawsocket peer waits up
+	// to a second for its receive handler), so close them concurrently.
+	var wg sync.WaitGroup
 	for _, sess := range r.shutdownSessions {
-		sess.Close()
+		wg.Add(1)
+		go func() {
+			defer wg.Done()
+			sess.Close()
+		}()
 	}
+	wg.Wait()
 	r.shutdownSessions = nil
 
 	// Finally stop the realm's goroutine. The action channel is not closed,
